@@ -1,8 +1,8 @@
 #!/bin/sh
-# tools/collect_seeds.sh <suffix> <root>: move finished sub-agent outputs /tmp/seedout_<ID><suffix>/{1,2,3} into /verif/<root>/<ID>-<suffix><k>/,
+# tools/collect_seeds.sh <suffix> <root> <ID>...: (only the ids named, i.e. agents that have reported) move finished sub-agent outputs /tmp/seedout_<ID><suffix>/{1,2,3} into /verif/<root>/<ID>-<suffix><k>/,
 # remove the scratch worktree and the prompt.  Only complete outputs (3 changes with patch.diff, demo.py, meta.json) are taken.
-S=$1; ROOT=${2:-seeded}
-for d in /tmp/seedout_*$S; do
+S=$1; ROOT=$2; shift 2
+for i in "$@"; do d=/tmp/seedout_$i$S
   [ -d "$d" ] || continue
   id=$(basename $d | sed "s/seedout_//; s/$S\$//")
   ok=1; for k in 1 2 3; do for f in patch.diff demo.py meta.json; do [ -s $d/$k/$f ] || ok=0; done; done
